@@ -2,6 +2,7 @@ mod crash;
 mod http;
 mod ilv;
 mod loops;
+mod net;
 mod props;
 mod report;
 mod seq;
@@ -19,7 +20,28 @@ fn main() {
         usage();
     }
     world::install_panic_hook();
+    world::remove_stale_scratch();
     world::install_global_hooks();
+    if args[1] == "net-demo" {
+        net::init_sleep_sites();
+        let n: usize = args[2].parse().unwrap_or(2);
+        let t0 = std::time::Instant::now();
+        match net::settled_cluster(n) {
+            Ok(w) => {
+                println!("settled in {:?} after {} steps", t0.elapsed(), w.steps);
+                for i in 0..n {
+                    println!("n{} role={} members={:?}", i + 1, w.role(i), w.members(i));
+                }
+                println!("links: {:?}", w.links.iter().map(|l| format!("{}>{} open={} delivered={}", l.from + 1, l.to + 1, l.open, l.delivered)).collect::<Vec<_>>());
+                println!("problems: {:?}", w.problems);
+                println!("key: {}", &w.key());
+                w.shutdown();
+            }
+            Err(e) => println!("bootstrap failed: {}", e),
+        }
+        world::cleanup_scratch();
+        std::process::exit(0);
+    }
     if args[1] == "crash-selftest" {
         println!("{:?}", crash::self_test());
         std::process::exit(0);
